@@ -89,12 +89,43 @@ def BoundT (c : Cfg) (P : Prog) (ctx : Ctx) (ct : List LInstr) (ev : Val → SM 
     CodeAt P k ct → ScopesOK ctx scs → ev a σ = (r, σ') →
     Runs c P (vm k (a :: st) scs σ c.budget) (outcome r (k + lsize ct) (a :: st) scs σ' c.budget)
 
+theorem SM.bind_assoc {α β γ : Type} (m : SM α) (f : α → SM β) (g : β → SM γ) :
+    (m >>= f) >>= g = m >>= fun a => f a >>= g := by
+  funext σ
+  simp only [SM.bind_apply]
+  cases h : m σ with
+  | mk r s => cases r <;> rfl
+
+/-- the omitted upper bound as one computation -/
+def lenOf (a : Val) : SM Val := do let n ← SM.lift (lengthV a); (pure (.int .int n) : SM Val)
+
+theorem eval_slice_sn' (sc : SCfg) (h : sc.sliceToFirst = true) (m x f) :
+    eval sc ctx (.slice m x (some f) none) = (do
+      let a ← eval sc ctx x
+      let tv ← lenOf a
+      let fv ← eval sc ctx f
+      SM.lift (sliceV a fv tv)) := by
+  rw [eval_slice_sn _ _ h]
+  congr 1; funext a
+  unfold lenOf
+  rw [SM.bind_assoc]
+
+theorem eval_slice_nn' (sc : SCfg) (h : sc.sliceToFirst = true) (m x) :
+    eval sc ctx (.slice m x none none) = (do
+      let a ← eval sc ctx x
+      let tv ← lenOf a
+      let fv ← (pure (.int .int 0) : SM Val)
+      SM.lift (sliceV a fv tv)) := by
+  rw [eval_slice_nn _ _ h]
+  congr 1; funext a
+  unfold lenOf
+  rw [SM.bind_assoc]
+
 theorem boundT_some {t : Node} {ct : List LInstr} (ht : Sim c P ctx t ct) :
     BoundT c P ctx ct (fun _ => eval (specOf c) ctx t) :=
   fun k st scs σ a r σ' hc hsc hev => ht k (a :: st) scs σ r σ' hc hsc hev
 
-theorem boundT_none {l : Loc} :
-    BoundT c P ctx [li l .len] (fun a => do let n ← SM.lift (lengthV a); (pure (.int .int n) : SM Val)) := by
+theorem boundT_none {l : Loc} : BoundT c P ctx [li l .len] lenOf := by
   intro k st scs σ a r σ' hc hsc hev
   replace hev : (SM.lift (lengthV a) >>= fun n => (pure (.int .int n) : SM Val)) σ = (r, σ') := hev
   rw [SM.bind_apply, SM.lift_apply] at hev
